@@ -186,7 +186,8 @@ func c19(e *Env) {
 	pki := &c19pki{host: host, now: now, caKey: c19key(0), otherKey: c19key(1), clientKey: c19key(2)}
 	day := 24 * time.Hour
 	pki.caCert, pki.caDER = mintCert(certSpec{cn: "bundle-ca", notBefore: now.Add(-day), notAfter: now.Add(365 * day), isCA: true}, pki.caKey, nil, nil, 1)
-	pki.otherCA, _ = mintCert(certSpec{cn: "other-ca", notBefore: now.Add(-day), notAfter: now.Add(365 * day), isCA: true}, pki.otherKey, nil, nil, 2)
+	var otherDER []byte
+	pki.otherCA, otherDER = mintCert(certSpec{cn: "other-ca", notBefore: now.Add(-day), notAfter: now.Add(365 * day), isCA: true}, pki.otherKey, nil, nil, 2)
 	_, pki.clientDER = mintCert(certSpec{cn: "bundle-client", notBefore: now.Add(-day), notAfter: now.Add(365 * day)}, pki.clientKey, pki.caCert, pki.caKey, 3)
 	// systematic: kinds sweep with the seed
 	metaKind := c19Kinds[int(e.Seed)%len(c19Kinds)]
@@ -197,28 +198,48 @@ func c19(e *Env) {
 	if metaKind == "expires-during-run" {
 		metaKind = "valid"
 	}
-	// the bundle
-	var zbuf bytes.Buffer
-	zw := zip.NewWriter(&zbuf)
-	add := func(name string, b []byte) {
-		f, _ := zw.Create(name)
-		f.Write(b)
+	// the bundle -- and, in some runs, a second bundle of another database (its CA is the "other" CA
+	// the impostors chain to) loaded by the same process before or after it: what a connection
+	// configured from one bundle trusts must not depend on which other bundles exist
+	loadBundle := func(host string, caDER, clientDER []byte, key ed25519.PrivateKey) (*astra.Bundle, error) {
+		var zbuf bytes.Buffer
+		zw := zip.NewWriter(&zbuf)
+		add := func(name string, b []byte) {
+			f, _ := zw.Create(name)
+			f.Write(b)
+		}
+		cj, _ := json.Marshal(map[string]interface{}{"host": host, "port": 29080})
+		add("config.json", cj)
+		add("ca.crt", pemCert(caDER))
+		add("cert", pemCert(clientDER))
+		add("key", pemKey(key))
+		add("README", []byte("not used"))
+		zw.Close()
+		zr, err := zip.NewReader(bytes.NewReader(zbuf.Bytes()), int64(zbuf.Len()))
+		if err != nil {
+			return nil, err
+		}
+		return astra.LoadBundleZip(zr)
 	}
-	cj, _ := json.Marshal(map[string]interface{}{"host": host, "port": 29080})
-	add("config.json", cj)
-	add("ca.crt", pemCert(pki.caDER))
-	add("cert", pemCert(pki.clientDER))
-	add("key", pemKey(pki.clientKey))
-	add("README", []byte("not used"))
-	zw.Close()
-	zr, err := zip.NewReader(bytes.NewReader(zbuf.Bytes()), int64(zbuf.Len()))
-	if err != nil {
-		e.Res.Infra = err.Error()
+	second := c.Choose("second-bundle", 3)
+	loadSecond := func() bool {
+		_, otherClient := mintCert(certSpec{cn: "other-client", notBefore: now.Add(-day), notAfter: now.Add(365 * day)}, pki.clientKey, pki.otherCA, pki.otherKey, 4)
+		if _, err := loadBundle("other-db.astra.example", otherDER, otherClient, pki.clientKey); err != nil {
+			e.Res.Infra = "LoadBundleZip failed on a well-formed second bundle: " + err.Error()
+			return false
+		}
+		e.Res.Stats["probe.c19.second_bundle_loaded"]++
+		return true
+	}
+	if second == 1 && !loadSecond() {
 		return
 	}
-	bundle, err := astra.LoadBundleZip(zr)
+	bundle, err := loadBundle(host, pki.caDER, pki.clientDER, pki.clientKey)
 	if err != nil {
 		e.Res.Infra = "LoadBundleZip failed on a well-formed bundle: " + err.Error()
+		return
+	}
+	if second == 2 && !loadSecond() {
 		return
 	}
 	// nodes are reached through the SNI proxy by host id
